@@ -4,49 +4,38 @@
            statement (paddings, str.split on the 29 whitespace code points, str.lower, skeleton with the two parenthesis guards,
            eval of the skeleton as the automaton pyrun + CPython's nesting limits, final pass with table lookups, the LicenseRef
            regex on the token as written, " ".join and the two final replaces), over the tables of coq/Gen/SpdxTable.v.
-   Spec    LicSpec: tokens, ASCII case folding, the SPDX automaton (LicAuto.spdx_ok) = the grammar LicGrammar.expr, canonical tokens,
-           tight printing.  The specification never looks at the lower-case keys, only at the official ids.
+   Spec    LicSpec: tokens (LicSpec.spdx_tokens), ASCII case folding, the SPDX automaton (LicAuto.spdx_ok) = the grammar
+           LicGrammar.expr, canonical tokens, tight printing.  The specification only looks at the official ids, never at the keys.
    Result  Ok o | Err (InvalidLicenseExpression) | Limit o (nesting depth 101..200: Ok o or Err, CPython parser dependent) | Crash.
-   Domain  kfree s: no U+212A KELVIN SIGN in the input (str.lower() maps it to "k", see C19_kelvin_refuted).  Every other
-           non-ASCII, non-whitespace character makes the model reject (C19_accepted_is_ascii).
-   Table   LicTable.spdx_table_ok is re-proved by vm_compute over the table of the working tree on every run. *)
+   Domain  kfree s: no U+212A KELVIN SIGN in the input (str.lower() maps it to "k": C19_kelvin_refuted; what happens with it is
+           bounded by C19_accepted_modulo_kelvin).  Any other non-ASCII, non-whitespace character makes the model reject
+           (C19_accepted_is_ascii), so the model's reading of str.lower() on such characters is immaterial.
+   Table   LicTable.spdx_table_ok is re-proved by vm_compute over the table of the working tree on every run.
+   Text    Whether "LicenseRef-x+" is well-formed is not fixed by the property; the code accepts it and so does LicSpec.lic_canon. *)
 From Coq Require Import List NArith Bool.
 Import ListNotations.
-Require Import VParse LicModel LicAuto LicSpec LicLex LicCode LicIdem LicGrammar LicTable LicTop SpdxTable.
+Require Import VParse LicModel LicAuto LicSpec LicLex LicCode LicIdem LicKelvin LicGrammar LicTable LicTop LicFinal SpdxTable.
 Open Scope N_scope.
 
-Notation canonicalize := canonicalize_license_expression.
-Notation spec := (spec_canon licenses exceptions).
-Notation deeper_than n s := (nests_deeper_than n (spdx_tokens s) = true).
-
 (* 1. the function computes the specification: it accepts exactly the SPDX expressions over the tables, in any ASCII case and whitespace
-      layout, and returns the canonical text; the only deviation is the interpreter's nesting limit (depth > 200 always rejected,
-      101..200 interpreter dependent) *)
+      layout, rejects everything else, and returns the canonical text; the only deviation is the interpreter's nesting limit
+      (depth > 200 always rejected, 101..200 interpreter dependent) *)
 Theorem C19_computes_the_specification s : kfree s ->
-  canonicalize s = match spec s with
-                   | None => Err
-                   | Some o => if nests_deeper_than 200 (spdx_tokens s) then Err
-                               else if nests_deeper_than 100 (spdx_tokens s) then Limit o else Ok o
-                   end.
-Proof. exact (canon_spec licenses exceptions spdx_table_ok s). Qed.
+  canonicalize_license_expression s =
+  match spec_canon licenses exceptions s with
+  | None => Err
+  | Some o => if nests_deeper_than 200 (spdx_tokens s) then Err
+              else if nests_deeper_than 100 (spdx_tokens s) then Limit o else Ok o
+  end.
+Proof. exact (final_spec s). Qed.
 Print Assumptions C19_computes_the_specification.
 
-(* 2. accepted exactly when the token sequence is an SPDX expression (up to the nesting limit) *)
-Theorem C19_accepts_iff_spdx s : kfree s -> ~ deeper_than 100 s ->
-  ((exists o, canonicalize s = Ok o) <-> spdx_tokens_ok licenses exceptions (spdx_tokens s) = true).
-Proof.
-  intros F D. rewrite (C19_computes_the_specification s F). unfold spec_canon.
-  assert (D2 : nests_deeper_than 200 (spdx_tokens s) = false).
-  { destruct (nests_deeper_than 200 (spdx_tokens s)) eqn:E; [|reflexivity]. exfalso. apply D.
-    unfold nests_deeper_than in *. apply (nest_exceeds_mono 100 200); [|exact E]. repeat constructor. }
-  destruct (spdx_tokens_ok licenses exceptions (spdx_tokens s)) eqn:E.
-  - destruct (spdx_ok_canon_tokens _ _ _ E) as (out & ->). rewrite D2.
-    destruct (nests_deeper_than 100 (spdx_tokens s)); [now destruct D|]. split; eauto.
-  - split; [intros (o & H); discriminate|discriminate].
-Qed.
+(* 2. accepted exactly when the token sequence is an SPDX expression (up to the nesting limit) ... *)
+Theorem C19_accepts_iff_spdx s : kfree s -> nests_deeper_than 100 (spdx_tokens s) <> true ->
+  ((exists o, canonicalize_license_expression s = Ok o) <-> spdx_tokens_ok licenses exceptions (spdx_tokens s) = true).
+Proof. exact (final_accepts_iff s). Qed.
 Print Assumptions C19_accepts_iff_spdx.
-
-(* the spec's recogniser is the SPDX grammar: LicGrammar.expr generates exactly the accepted token sequences *)
+(* ... where the automaton of the specification is the SPDX grammar: simple | simple WITH exception | ( expr ) | expr AND/OR expr *)
 Theorem C19_spdx_automaton_is_the_grammar ts :
   spdx_tokens_ok licenses exceptions ts = true <-> exists e, expr_ok licenses exceptions e /\ map classify ts = expr_tokens e.
 Proof. exact (automaton_iff_grammar licenses exceptions ts). Qed.
@@ -55,68 +44,63 @@ Print Assumptions C19_spdx_automaton_is_the_grammar.
 (* 3. canonical form: one result token per input token - operators in upper case, official ids, "LicenseRef-" + the suffix as written,
       "+" kept (LicSpec.canon_tokens) - each the same word as its input token (same structure), ASCII, printed with single spaces
       and tight parentheses; and the text tokenises back to exactly these tokens *)
-Theorem C19_canonical_form s o : kfree s -> (canonicalize s = Ok o \/ canonicalize s = Limit o) ->
+Theorem C19_canonical_form s o : kfree s -> (canonicalize_license_expression s = Ok o \/ canonicalize_license_expression s = Limit o) ->
   exists out, canon_tokens licenses exceptions false (spdx_tokens s) = Some out /\ o = tight out /\
               Forall2 teq (spdx_tokens s) out /\ spdx_tokens o = out /\ forallb asciib o = true.
-Proof.
-  intros F H. rewrite (C19_computes_the_specification s F) in H. unfold spec_canon in H.
-  destruct (spdx_tokens_ok licenses exceptions (spdx_tokens s)) eqn:E; [|destruct H; discriminate].
-  destruct (canon_tokens licenses exceptions false (spdx_tokens s)) as [out|] eqn:C; [|destruct H; discriminate].
-  assert (o = tight out).
-  { destruct (nests_deeper_than 200 (spdx_tokens s)); [destruct H; discriminate|].
-    destruct (nests_deeper_than 100 (spdx_tokens s)); destruct H as [H|H]; congruence. }
-  subst o. exists out. destruct (canon_tokens_shape _ _ spdx_table_ok _ _ _ C) as [A B].
-  repeat split; auto.
-  - now apply (canon_tokens_same_words _ _ spdx_table_ok _ false).
-  - unfold spdx_tokens. now apply retokenise.
-  - now apply tight_ascii.
-Qed.
+Proof. exact (final_canonical_form s o). Qed.
 Print Assumptions C19_canonical_form.
 
-(* 4. idempotent *)
-Theorem C19_idempotent s o : kfree s -> canonicalize s = Ok o -> canonicalize o = Ok o.
-Proof. intros F H. rewrite <- H. apply (canon_idempotent _ _ spdx_table_ok s o F). now left. Qed.
+(* 4. idempotent - for every input, KELVIN SIGN or not *)
+Theorem C19_idempotent s o : canonicalize_license_expression s = Ok o -> canonicalize_license_expression o = Ok o.
+Proof. exact (final_idempotent s o). Qed.
 Print Assumptions C19_idempotent.
 
 (* 5. insensitive to ASCII case (outside LicenseRef suffixes) and to whitespace layout: same words, same result *)
 Theorem C19_case_and_layout_insensitive s s' : kfree s -> kfree s' -> Forall2 teq (spdx_tokens s) (spdx_tokens s') ->
-  canonicalize s = canonicalize s'.
+  canonicalize_license_expression s = canonicalize_license_expression s'.
 Proof. exact (canon_insensitive _ _ spdx_table_ok s s'). Qed.
 Print Assumptions C19_case_and_layout_insensitive.
 (* whitespace layout alone, for every input: the result depends on the token sequence only *)
-Theorem C19_layout_insensitive s s' : spdx_tokens s = spdx_tokens s' -> canonicalize s = canonicalize s'.
-Proof. intros H. unfold canonicalize_license_expression. rewrite !canon_split. unfold spdx_tokens in H. now rewrite H. Qed.
+Theorem C19_layout_insensitive s s' : spdx_tokens s = spdx_tokens s' -> canonicalize_license_expression s = canonicalize_license_expression s'.
+Proof. exact (final_layout s s'). Qed.
 Print Assumptions C19_layout_insensitive.
 
-(* 6. everything else is rejected with the documented exception: no other exception, for any input whatsoever *)
-Theorem C19_only_the_documented_exception s : canonicalize s <> Crash.
+(* 6. everything else is rejected with the documented exception: no other exception for any input whatsoever (and any table) *)
+Theorem C19_only_the_documented_exception s : canonicalize_license_expression s <> Crash.
 Proof. exact (canon_no_crash licenses exceptions s). Qed.
 Print Assumptions C19_only_the_documented_exception.
-Theorem C19_rejects_what_is_not_spdx s : kfree s -> spec s = None -> canonicalize s = Err.
-Proof. intros F H. rewrite (C19_computes_the_specification s F). now rewrite H. Qed.
-Print Assumptions C19_rejects_what_is_not_spdx.
-Theorem C19_empty_rejected : canonicalize [] = Err.
+Theorem C19_empty_rejected : canonicalize_license_expression [] = Err.
 Proof. reflexivity. Qed.
 Print Assumptions C19_empty_rejected.
 
-(* 7. an accepted input consists of ASCII characters and whitespace (so the model's treatment of other non-ASCII text is immaterial) *)
-Theorem C19_accepted_is_ascii s o : kfree s -> (canonicalize s = Ok o \/ canonicalize s = Limit o) ->
+(* 7. outside the KELVIN-free domain: whatever is accepted is the canonical text of the SPDX expression obtained by writing "k" for
+      every KELVIN SIGN; and an accepted KELVIN-free input consists of ASCII characters and whitespace only *)
+Theorem C19_accepted_modulo_kelvin s o : (canonicalize_license_expression s = Ok o \/ canonicalize_license_expression s = Limit o) ->
+  spec_canon licenses exceptions (dk s) = Some o.
+Proof. exact (accepted_modulo_kelvin _ _ spdx_table_ok s o). Qed.
+Print Assumptions C19_accepted_modulo_kelvin.
+Theorem C19_accepted_is_ascii s o : kfree s -> (canonicalize_license_expression s = Ok o \/ canonicalize_license_expression s = Limit o) ->
   forall c, In c s -> asciib c = true \/ is_ws c = true.
-Proof.
-  intros F H. destruct (C19_canonical_form s o F H) as (out & C & _ & Q & _ & _).
-  destruct (canon_tokens_shape _ _ spdx_table_ok _ _ _ C) as [_ B]. now apply (accepted_ascii s out).
-Qed.
+Proof. exact (final_accepted_ascii s o). Qed.
 Print Assumptions C19_accepted_is_ascii.
 
-(* the deviations of the code from the property, as theorems about the faithful model *)
+(* 8. the table of the working tree satisfies the invariants the above rests on (key = ASCII lower-casing of the id; keys and ids ASCII;
+      ids non-empty, free of whitespace and parentheses; no id is a prefix of "WITH"; no exception key is an operator word, a
+      parenthesis or LicenseRef-like); keys pairwise distinct, so first-match lookup is dict lookup *)
+Theorem C19_table_invariants : table_ok licenses exceptions = true /\ NoDup (map fst licenses) /\ NoDup (map fst exceptions).
+Proof. exact (conj spdx_table_ok spdx_keys_nodup). Qed.
+Print Assumptions C19_table_invariants.
+
+(* the deviations of the code from the property, as facts about the faithful model *)
 (* "K"+"azlib" (U+212A KELVIN SIGN) is accepted as Kazlib although it is no ASCII-case spelling of any id *)
 Example C19_kelvin_refuted :
-  canonicalize [8490;97;122;108;105;98] = Ok [75;97;122;108;105;98] /\ spec [8490;97;122;108;105;98] = None.
+  canonicalize_license_expression [8490;97;122;108;105;98] = Ok [75;97;122;108;105;98] /\
+  spec_canon licenses exceptions [8490;97;122;108;105;98] = None.
 Proof. split; vm_compute; reflexivity. Qed.
 (* 201 nested parentheses around MIT: an SPDX expression, rejected *)
 Example C19_deep_nesting_refuted :
   let s := repeat 40 201 ++ [77;73;84] ++ repeat 41 201 in
-  canonicalize s = Err /\ spdx_tokens_ok licenses exceptions (spdx_tokens s) = true.
+  canonicalize_license_expression s = Err /\ spdx_tokens_ok licenses exceptions (spdx_tokens s) = true.
 Proof. split; vm_compute; reflexivity. Qed.
 
 (* non-vacuity: " mit\x0bOR( apache-2.0+ with\nLLVM-EXCEPTION and licenseref-My.Ref) " is accepted with the canonical text
@@ -126,5 +110,5 @@ Example C19_nonvacuous :
             97;110;100;32;108;105;99;101;110;115;101;114;101;102;45;77;121;46;82;101;102;41;32] in
   let o := [77;73;84;32;79;82;32;40;65;112;97;99;104;101;45;50;46;48;43;32;87;73;84;72;32;76;76;86;77;45;101;120;99;101;112;116;105;111;110;32;
             65;78;68;32;76;105;99;101;110;115;101;82;101;102;45;77;121;46;82;101;102;41] in
-  kfree s /\ canonicalize s = Ok o /\ spec s = Some o /\ canonicalize o = Ok o.
+  kfree s /\ canonicalize_license_expression s = Ok o /\ spec_canon licenses exceptions s = Some o /\ canonicalize_license_expression o = Ok o.
 Proof. repeat split; try (vm_compute; reflexivity). intros K. cbn in K. repeat (destruct K as [K|K]; [discriminate|]). exact K. Qed.
